@@ -416,6 +416,140 @@ theorem link_inverse_hasDerivAt (l : Glm.Link) (x : ℝ) :
 example : (∀ p ∈ predict .logit [[1000], [-1000]] ([1] : List ℝ) 0, 0 < p ∧ p < 1) :=
   (predictions_in_link_range _ _ _).2
 
+/-- `powf` over the reals -/
+noncomputable def rpw : ℝ → ℝ → ℝ := fun a b => a ^ b
+
+theorem glm_two_eq : (two : ℝ) = 2 := by norm_num [two]
+
+/-- normal (`power = 0`): `d/dμ (y-μ)² = -2 (y-μ) / μ⁰` -/
+theorem tweedie_unit_deviance_deriv_normal (tol6 y μ : ℝ) :
+    HasDerivAt (fun m => (unitDeviance rpw tol6 0 y m).getD 0) (unitDevianceDeriv rpw 0 y μ) μ := by
+  have hf : (fun m => (unitDeviance rpw tol6 0 y m).getD 0) = fun m => (y - m) * (y - m) := by
+    funext m; simp [unitDeviance, powerClass]
+  rw [hf]
+  have h := ((hasDerivAt_id μ).const_sub y).mul ((hasDerivAt_id μ).const_sub y)
+  refine h.congr_deriv ?_
+  simp [unitDevianceDeriv, rpw, glm_two_eq]
+  ring
+
+/-- Poisson (`power = 1`, after the repair of the cost): `d/dμ [2 y ln(y/μ) + 2(μ-y)] = -2 (y-μ)/μ`,
+also for `y = 0` -/
+theorem tweedie_unit_deviance_deriv_poisson (tol6 y μ : ℝ) (ht : 0 < tol6) (hμ : 0 < μ) (hy : 0 ≤ y) :
+    HasDerivAt (fun m => (unitDeviance rpw tol6 1 y m).getD 0) (unitDevianceDeriv rpw 1 y μ) μ := by
+  have hc : powerClass tol6 (1 : ℝ) = .poisson := by
+    simp [powerClass, absS, ht]
+  by_cases hy0 : y = 0
+  · subst hy0
+    have hf : (fun m => (unitDeviance rpw tol6 1 0 m).getD 0) = fun m => two * (m - 0) := by
+      funext m; simp [unitDeviance, hc]
+    rw [hf]
+    have h := ((hasDerivAt_id μ).sub_const 0).const_mul (two : ℝ)
+    refine h.congr_deriv ?_
+    simp [unitDevianceDeriv, rpw, glm_two_eq]
+    field_simp
+  · have hf : (fun m => (unitDeviance rpw tol6 1 y m).getD 0) =
+        fun m => two * (y * Real.log (y / m)) + two * (m - y) := by
+      funext m; simp [unitDeviance, hc, hy0, Transc.ln]
+    rw [hf]
+    have hypos : 0 < y := lt_of_le_of_ne hy (Ne.symm hy0)
+    have hdiv : HasDerivAt (fun m : ℝ => y / m) (-y / μ ^ 2) μ := by
+      have := (hasDerivAt_inv (ne_of_gt hμ)).const_mul y
+      simp only [div_eq_mul_inv]
+      refine this.congr_deriv ?_
+      field_simp
+    have hlog := hdiv.log (ne_of_gt (div_pos hypos hμ))
+    have h := ((hlog.const_mul y).const_mul (two : ℝ)).add (((hasDerivAt_id μ).sub_const y).const_mul (two : ℝ))
+    refine h.congr_deriv ?_
+    simp [unitDevianceDeriv, rpw, glm_two_eq]
+    field_simp
+    ring
+
+/-- gamma (`power = 2`): `d/dμ 2(ln(μ/y) + y/μ - 1) = -2 (y-μ)/μ²` -/
+theorem tweedie_unit_deviance_deriv_gamma (tol6 y μ : ℝ) (ht : 0 < tol6) (ht1 : tol6 ≤ 1) (hμ : 0 < μ) (hy : 0 < y) :
+    HasDerivAt (fun m => (unitDeviance rpw tol6 2 y m).getD 0) (unitDevianceDeriv rpw 2 y μ) μ := by
+  have hc : powerClass tol6 (2 : ℝ) = .gamma := by
+    have h1 : ¬ ((2:ℝ) - 1 < tol6) := by intro h; linarith
+    have h2 : ¬ ((2:ℝ) < 0) := by norm_num
+    simp [powerClass, absS, ht, glm_two_eq, h1, h2]
+  have hf : (fun m => (unitDeviance rpw tol6 2 y m).getD 0) =
+      fun m => two * (Real.log (m / y) + y / m - 1) := by
+    funext m; simp [unitDeviance, hc, Transc.ln]
+  rw [hf]
+  have hdiv : HasDerivAt (fun m : ℝ => y / m) (-y / μ ^ 2) μ := by
+    have := (hasDerivAt_inv (ne_of_gt hμ)).const_mul y
+    simp only [div_eq_mul_inv]
+    refine this.congr_deriv ?_
+    field_simp
+  have hlog := ((hasDerivAt_id μ).div_const y).log (ne_of_gt (div_pos hμ hy))
+  have h := (((hlog.add hdiv).sub_const 1)).const_mul (two : ℝ)
+  refine h.congr_deriv ?_
+  simp [unitDevianceDeriv, rpw, glm_two_eq]
+  field_simp
+  ring
+
+/-- any power of the generic arm (`(1,2)`, `3`, …): `-2 (y-μ)/μ^p` -/
+theorem tweedie_unit_deviance_deriv_generic (tol6 p y μ : ℝ) (hc : powerClass tol6 p = .generic) (hp1 : p ≠ 1) (hp2 : p ≠ 2)
+    (hμ : 0 < μ) :
+    HasDerivAt (fun m => (unitDeviance rpw tol6 p y m).getD 0) (unitDevianceDeriv rpw p y μ) μ := by
+  have hf : (fun m => (unitDeviance rpw tol6 p y m).getD 0) =
+      fun m => two * (y ^ (two - p) / ((1 - p) * (two - p)) - y * (m ^ (1 - p) / (1 - p)) + m ^ (two - p) / (two - p)) := by
+    funext m; simp [unitDeviance, hc, rpw]
+  rw [hf]
+  have h1p : (1 - p) ≠ 0 := sub_ne_zero.mpr (Ne.symm hp1)
+  have h2p : (2 - p) ≠ 0 := sub_ne_zero.mpr (Ne.symm hp2)
+  have ha := (Real.hasDerivAt_rpow_const (x := μ) (p := 1 - p) (Or.inl (ne_of_gt hμ)))
+  have hb := (Real.hasDerivAt_rpow_const (x := μ) (p := two - p) (Or.inl (ne_of_gt hμ)))
+  have h := ((((ha.div_const (1 - p)).const_mul y).const_sub (y ^ (two - p) / ((1 - p) * (two - p)))).add
+    (hb.div_const (two - p))).const_mul (two : ℝ)
+  refine h.congr_deriv ?_
+  simp only [unitDevianceDeriv, rpw, glm_two_eq]
+  have e1 : μ ^ (1 - p - 1) = μ ^ (-p) := by ring_nf
+  have e2 : μ ^ (2 - p - 1) = μ ^ (-p) * μ := by
+    rw [show (2 - p - 1) = -p + 1 by ring, Real.rpow_add hμ, Real.rpow_one]
+  rw [e1, e2, Real.rpow_neg hμ.le]
+  field_simp
+  ring
+
+example : powerClass (1 / 1000000 : ℝ) 3 = .generic ∧ powerClass (1 / 1000000 : ℝ) (3 / 2) = .generic := by
+  constructor <;> (simp only [powerClass, absS, glm_two_eq]; norm_num)
+
+example : HasDerivAt (fun m => (unitDeviance rpw (1 / 1000000) 1 3 m).getD 0)
+    (unitDevianceDeriv rpw 1 3 2) 2 :=
+  tweedie_unit_deviance_deriv_poisson _ 3 2 (by norm_num) (by norm_num) (by norm_num)
+
+/-- **per-sample, per-coordinate term of the GLM gradient** (`_partial` of
+`tweedie_grad_is_derivative`; full statement: every entry of `Glm.gradient` is the partial
+derivative of `Glm.cost` — missing: the sum over the sample list and the parameter-vector
+bookkeeping).  If `D` is the unit deviance of the sample as a function of the mean, with derivative
+`d` at `μ = h(η₀)`, and the linear predictor depends on the coordinate as `η₀ + xj (t - w₀)`, then
+`½ D(h(η))` has derivative `d · h'(η₀) · xj · ½` — the summand `temp[i] * x_ij * 0.5` of
+`TweedieProblem::gradient` (`xj = 1` for the intercept). -/
+theorem tweedie_grad_is_derivative_partial (D : ℝ → ℝ) (d : ℝ) (l : Glm.Link) (η0 xj w0 : ℝ)
+    (hD : HasDerivAt D d (linkInverse l η0)) :
+    HasDerivAt (fun t : ℝ => (Glm.half : ℝ) * D (linkInverse l (η0 + xj * (t - w0))))
+      (d * linkInverseDeriv l η0 * xj * Glm.half) w0 := by
+  have hin : HasDerivAt (fun t : ℝ => η0 + xj * (t - w0)) xj w0 := by
+    have := (((hasDerivAt_id w0).sub_const w0).const_mul xj).const_add η0
+    simpa using this
+  have hl := link_inverse_hasDerivAt l (η0 + xj * (w0 - w0))
+  simp only [sub_self, mul_zero, add_zero] at hl
+  have hmid : HasDerivAt (fun t : ℝ => linkInverse l (η0 + xj * (t - w0))) (linkInverseDeriv l η0 * xj) w0 := by
+    have h0 : η0 = η0 + xj * (w0 - w0) := by ring
+    have hl' : HasDerivAt (linkInverse (α := ℝ) l) (linkInverseDeriv l η0) (η0 + xj * (w0 - w0)) := by
+      rw [← h0]; exact hl
+    exact HasDerivAt.comp w0 hl' hin
+  have hD' : HasDerivAt D d (linkInverse l (η0 + xj * (w0 - w0))) := by
+    have h0 : η0 + xj * (w0 - w0) = η0 := by ring
+    rw [h0]; exact hD
+  have h := (HasDerivAt.comp w0 hD' hmid).const_mul (Glm.half : ℝ)
+  exact h.congr_deriv (by ring)
+
+example : HasDerivAt (fun t : ℝ => (Glm.half : ℝ) * (fun m => (unitDeviance rpw (1 / 1000000) 1 3 m).getD 0)
+      (linkInverse .log (0 + 2 * (t - 0))))
+    (unitDevianceDeriv rpw 1 3 (linkInverse .log 0) * linkInverseDeriv .log 0 * 2 * Glm.half) 0 :=
+  tweedie_grad_is_derivative_partial _ _ .log 0 2 0
+    (tweedie_unit_deviance_deriv_poisson _ 3 _ (by norm_num) (by simp [linkInverse, Transc.exp]) (by norm_num))
+
 end Glm
 
 end LinfaSpec.Props.C12
